@@ -6,6 +6,7 @@
 * small helpers: finite-range integers encoded over booleans, concrete replay plumbing, float64 helpers.
 """
 import math
+from fractions import Fraction
 from typing import ClassVar
 
 import equinox as eqx
@@ -15,6 +16,7 @@ import numpy as np
 import optax
 import z3
 
+from lerax.buffer import ReplayBuffer
 from lerax.policy import AbstractActorCriticPolicy, AbstractQPolicy
 from lerax.policy.sac import AbstractSACPolicy
 from lerax.space import Box, Discrete
@@ -57,8 +59,11 @@ class TabACPolicy(AbstractActorCriticPolicy):
 
 
 # ----------------------------------------------------------------------------- Q policies (C07, DQN)
+_sg = jax.lax.stop_gradient
+
+
 class UFQPolicy(AbstractQPolicy):
-    """arbitrary Q-network: q_values = Q(theta, observation), an uninterpreted function"""
+    """arbitrary Q-network: q_values = Q(theta, observation), an uninterpreted function (a constant for differentiation)"""
     name: ClassVar[str] = "UFQ"
     action_space: Discrete
     observation_space: Box
@@ -66,7 +71,7 @@ class UFQPolicy(AbstractQPolicy):
     theta: jax.Array
     tag: str = eqx.field(static=True)
 
-    def __init__(self, A, m=2, tag="Q"):
+    def __init__(self, A, m=1, tag="Q"):
         self.action_space = Discrete(A)
         self.observation_space = Box(-jnp.inf, jnp.inf, shape=(m,))
         self.epsilon = 0.0
@@ -77,7 +82,7 @@ class UFQPolicy(AbstractQPolicy):
         return None
 
     def q_values(self, state, observation):
-        return None, uf(self.tag, [((self.action_space.n,), "float32")], self.theta, observation)[0]
+        return None, uf(self.tag, [((self.action_space.n,), "float32")], _sg(self.theta), _sg(observation))[0]
 
 
 class TabQPolicy(AbstractQPolicy):
@@ -101,9 +106,16 @@ class TabQPolicy(AbstractQPolicy):
         return None, self.table[observation]
 
 
+class Batch(ReplayBuffer):
+    """`buffer.sample` cut: the buffer handed to the train step IS the (symbolic) batch"""
+
+    def sample(self, batch_size, *, key):
+        return self
+
+
 # ----------------------------------------------------------------------------- SAC policies and critics (C07, SAC)
 class UFSACPolicy(AbstractSACPolicy):
-    """arbitrary SAC actor: (action, log-prob) = PI(theta, observation, key)"""
+    """arbitrary SAC actor: (action, log-prob) = PI(theta, observation, key); a constant for differentiation"""
     name: ClassVar[str] = "UFSAC"
     action_space: Box
     observation_space: Box
@@ -126,35 +138,37 @@ class UFSACPolicy(AbstractSACPolicy):
         raise NotImplementedError
 
     def action_and_log_prob(self, state, observation, *, key):
-        a, lp = uf("PI", [((self.adim,), "float32"), ((), "float32")], self.theta, observation, key)
+        a, lp = uf("PI", [((self.adim,), "float32"), ((), "float32")], _sg(self.theta), _sg(observation), key)
         return None, a, lp
 
 
 class UFCritic(eqx.Module):
-    """arbitrary critic: Q(theta, observation, action)"""
+    """arbitrary critic with a differentiable output bias: Q(s, a) = b + F(theta, s, a), F uninterpreted (a constant
+    for differentiation), so that dL/db = sum_i dL/dq_i is available for every critic"""
     theta: jax.Array
+    b: jax.Array
     tag: str = eqx.field(static=True)
 
-    def __init__(self, tag):
+    def __init__(self, tag="Q"):
         self.theta = jnp.zeros(())
+        self.b = jnp.zeros(())
         self.tag = tag
 
     def __call__(self, observation, action):
-        return uf(self.tag, [((), "float32")], self.theta, observation.ravel(), action.ravel())[0]
+        return self.b + uf(self.tag, [((), "float32")], _sg(self.theta), _sg(observation.ravel()), _sg(action.ravel()))[0]
 
 
 class TabSACPolicy(AbstractSACPolicy):
-    """parametrised actor over a finite state set: observation = state index (as a float), the sampled action and
-    its log-prob are table entries (the key is ignored: the draw is the parameter)"""
+    """parametrised actor over a finite state set: the sampled action and its log-prob are table entries"""
     name: ClassVar[str] = "TabSAC"
     action_space: Box
-    observation_space: Box
+    observation_space: Discrete
     act: jax.Array
     lp: jax.Array
 
     def __init__(self, S):
         self.action_space = Box(-jnp.inf, jnp.inf, shape=())
-        self.observation_space = Box(-jnp.inf, jnp.inf, shape=())
+        self.observation_space = Discrete(S)
         self.act = jnp.zeros(S)
         self.lp = jnp.zeros(S)
 
@@ -168,8 +182,7 @@ class TabSACPolicy(AbstractSACPolicy):
         raise NotImplementedError
 
     def action_and_log_prob(self, state, observation, *, key):
-        i = observation.astype(int)
-        return None, self.act[i], self.lp[i]
+        return None, self.act[observation], self.lp[observation]
 
 
 class TabCritic(eqx.Module):
@@ -182,8 +195,7 @@ class TabCritic(eqx.Module):
         self.w1 = jnp.zeros(S)
 
     def __call__(self, observation, action):
-        i = observation.astype(int)
-        return self.w0[i] + self.w1[i] * action
+        return self.w0[observation] + self.w1[observation] * action
 
 
 # ----------------------------------------------------------------------------- uninterpreted optimiser
@@ -313,3 +325,27 @@ def differs(got, want, rtol=2e-3, atol=2e-3):
 
 def safe_log(x, default=0.0):
     return math.log(x) if (x is not None and x == x and x > 0) else default
+
+
+# ----------------------------------------------------------------------------- scale-free comparisons (DESIGN 1.4b)
+def sign_agree(G, R):
+    """G is a descent direction for the residual R in scale-free form: G = 0 <=> R = 0, and they have the same sign"""
+    return z3.And(z3.Implies(R > 0, G > 0), z3.Implies(R < 0, G < 0), z3.Implies(R == 0, G == 0))
+
+
+def sign_agree_margin(G, R, big=Fraction(1, 4), small=Fraction(1, 100), tiny=Fraction(1, 1000)):
+    return z3.And(z3.Implies(R > big, G > small), z3.Implies(R < -big, G < -small), z3.Implies(R == 0, zabs(G) <= tiny))
+
+
+def agree_bad(G, R, big=0.2, small=1e-3, zero=1e-5, tiny=2e-3):
+    """numeric (replay-time) refutation of sign_agree"""
+    G, R = float(G), float(R)
+    return (R > big and G <= small) or (R < -big and G >= -small) or (abs(R) <= zero and abs(G) > tiny)
+
+
+def cross_bad(L, V, L2, V2, rtol=3e-3):
+    """numeric refutation of 'L = c V and L2 = c V2 for one positive c'"""
+    L, V, L2, V2 = float(L), float(V), float(L2), float(V2)
+    cross = abs(L * V2 - L2 * V)
+    scale = abs(L * V2) + abs(L2 * V) + 1e-6
+    return cross > rtol * scale + 1e-5 or (V > 1e-2 and L <= 1e-6) or (V2 > 1e-2 and L2 <= 1e-6)
